@@ -196,6 +196,18 @@ def justify_rules(run, fx):
             if sv != 'this->' + name:
                 run.violated('RESTORE', inst, j.where(), 'the saved value is `%s`, not %s' % (sv, name))
                 continue
+            # ... and the value it reads is the one narrowed away: nothing that rewrites the head/tail (the entry reversal) runs between
+            # the save and the narrowing write
+            from .util import reaches_avoiding
+            savestmt = [d for _, d in j.elements() if d['k'] == 'DeclStmt' and any(x.get('vid') == saved.get('vid') for x in d.get('decls', []))]
+            stale = [(r_, n_) for r_ in calls_in(j, 'graphite2::Segment::reverseSlots') for n_ in narrow
+                     if savestmt and reaches_avoiding(j, savestmt[0], r_) and reaches_avoiding(j, r_, n_)]
+            if stale:
+                r_, n_ = stale[0]
+                run.violated('RESTORE', inst, j.loc(savestmt[0]), '%s is saved at line %s, but reverseSlots() at line %s rewrites it before it is narrowed at line %s: the value '
+                             'restored afterwards is the head/tail of the list as it was BEFORE the reversal, so the closing reversal runs on a wrong window and the stream '
+                             'stays reversed / loses slots' % (name, savestmt[0].get('ln'), r_.get('ln'), n_.get('ln')))
+                continue
             rb = {j.block_of[e['i']] for e in rest}
             off = None
             for e in narrow:
@@ -391,11 +403,120 @@ def linebreak(run, fx):
                      'and p stay reachable from one side only' % (sorted(writes, key=str),))
 
 
+def justpool(run, fx):
+    """Segment::newJustify carves a block of m_bufSize justification records (stride justSize) into a free list: every record
+    address `block + stride * X` formed there has X <= count - 1, with the range of the loop variable taken from its initial
+    value and the direction of its steps (or from a dominating comparison), all as linear forms"""
+    from . import linear
+    fn = fx.one('graphite2::Segment::newJustify')
+    allocs = []
+    for _, d in fn.elements():
+        if d['k'] == 'DeclStmt':
+            for x in d.get('decls', []):
+                if x.get('init') is None:
+                    continue
+                c = fn.strip_all_casts(x['init'])
+                if c['k'] == 'CallExpr' and (c.get('fq') or '').startswith(('graphite2::grzeroalloc', 'graphite2::gralloc')) and c.get('args'):
+                    sz = fn.deref(c['args'][0])
+                    if sz['k'] == 'BinaryOperator' and sz.get('op') == '*':
+                        allocs.append((x['vid'], fn.render(fn.deref(sz['c'][0]), resolve=True), fn.render(fn.deref(sz['c'][1]), resolve=True), sz))
+    if len(allocs) != 1:
+        run.broken('UNDO', 'justify record pool', 'expected one stride*count allocation in Segment::newJustify, found %d' % len(allocs), fn.where())
+        return
+    bvid, f1, f2, sz = allocs[0]
+    n = 0
+    for _, e in fn.elements():
+        if e['k'] != 'BinaryOperator' or e.get('op') != '+' or '*' not in (e.get('t') or ''):
+            continue
+        base = fn.strip_all_casts(e['c'][0])
+        if base['k'] != 'DeclRefExpr' or base.get('vid') != bvid:
+            continue
+        off = fn.deref(e['c'][1])
+        if off['k'] != 'BinaryOperator' or off.get('op') != '*':
+            continue
+        a_, b_ = fn.render(fn.deref(off['c'][0]), resolve=True), fn.render(fn.deref(off['c'][1]), resolve=True)
+        if a_ in (f1, f2):
+            stride, X, count = a_, off['c'][1], (f2 if a_ == f1 else f1)
+        elif b_ in (f1, f2):
+            stride, X, count = b_, off['c'][0], (f2 if b_ == f1 else f1)
+        else:
+            continue
+        n += 1
+        inst = 'record address @%s:%s' % (e.get('ln'), e.get('col'))
+        xt, xc = linear.lin(fn, X, through_unsigned=True)
+        # upper bounds of the variables in X at this site
+        ub_terms, ub_c, ok, why = linear.Counter(), xc, True, ''
+        for v, coef in xt.items():
+            if v == count:
+                ub_terms[v] += coef
+                continue
+            if coef != 1:
+                ok, why = False, 'coefficient %d of %s' % (coef, v)
+                break
+            cands = []
+            # (a) a dominating comparison  B - v + c >= 0
+            for cond, pol in dom.edge_guards(fn, fn.block_of[e['i']]):
+                for at, p in dom.atoms(fn, cond, pol):
+                    for t, c in linear.lower_bounds(fn, at, p):
+                        if t.get(v) == -1:
+                            rest = linear.Counter({k_: c_ for k_, c_ in t.items() if k_ != v})
+                            cands.append((rest, c))
+            # (b) a variable that only ever steps down from its initial value
+            vids = [x for _, x in fn.elements() if x['k'] == 'DeclRefExpr' and x.get('vid') is not None and fn.render(x) == v]
+            if vids:
+                vid = vids[0]['vid']
+                inits = [x_['init'] for _, d in fn.elements() if d['k'] == 'DeclStmt' for x_ in d.get('decls', []) if x_.get('vid') == vid and x_.get('init') is not None]
+                steps = []
+                for _, u in fn.elements():
+                    if not u.get('c') or u['c'][0] is None:
+                        continue
+                    if (u['k'] == 'UnaryOperator' and u.get('op') in ('pre++', 'post++', 'pre--', 'post--')) or u['k'] == 'CompoundAssignOperator' or \
+                            (u['k'] == 'BinaryOperator' and u.get('op') == '='):
+                        t_ = fn.strip_all_casts(u['c'][0])
+                        if t_['k'] == 'DeclRefExpr' and t_.get('vid') == vid:
+                            steps.append(u)
+                if len(inits) == 1 and steps and all(u['k'] == 'UnaryOperator' and u['op'] in ('pre--', 'post--') for u in steps):
+                    it, ic = linear.lin(fn, inits[0], through_unsigned=True)
+                    before_body = any(fn.block_of[u['i']] in fn.dominators()[fn.block_of[e['i']]] and fn.block_of[u['i']] != fn.block_of[e['i']] for u in steps)
+                    cands.append((it, ic - (1 if before_body else 0)))
+            best = None
+            for t, c in cands:
+                # the bound must leave count - 1 - (bound + xc) a non-negative constant
+                rem = linear.Counter({count: 1})
+                for k_, c_ in t.items():
+                    rem[k_] -= c_
+                rem = {k_: c_ for k_, c_ in rem.items() if c_}
+                if not rem:
+                    best = c if best is None or c < best else best
+            if best is None:
+                ok, why = False, 'no bound of `%s` relative to %s' % (v, count)
+                break
+            ub_terms[count] += 1
+            ub_c += best
+        if ok:
+            slack = -1 - ub_c + (0 if ub_terms.get(count, 0) == 1 else None if ub_terms.get(count, 0) else 0)
+            if ub_terms.get(count, 0) == 0:
+                slack = 0 if xc == 0 else None       # a constant index: record 0 exists
+                if xc != 0:
+                    ok, why = False, 'constant index %d is not related to %s' % (xc, count)
+        if ok and slack is not None and slack >= 0:
+            run.held('UNDO', inst, fn.loc(e), 'index <= %s - 1 (slack %d)' % (count, slack))
+        elif ok:
+            run.violated('UNDO', inst, fn.loc(e), 'Segment::newJustify forms the address of record `%s` of a block that holds %s records of %s bytes: the index can reach %s %+d, '
+                         'one or more records past the end (the last record of the pool gets a next pointer outside the allocation and is handed out later)'
+                         % (fn.render(fn.N(X)), count, stride, count, ub_c))
+        else:
+            run.broken('UNDO', inst, 'cannot bound the record index `%s`: %s' % (fn.render(fn.N(X)), why), fn.loc(e))
+    if n < 2:
+        run.broken('UNDO', 'justify record pool', 'expected the two record addresses (p, next) of the free-list loop, found %d' % n, fn.where())
+
+
 def run(run):
     vm = R.get_vm(run)
     fx = vm.fx
     justify_rules(run, fx)
     undo(run, fx)
+    justpool(run, fx)
     linebreak(run, fx)
     c03.nomutpos(run, vm)
     run.assume('allocation failure (addLineEnd returning NULL) is outside the quantifier: the `return -1.0` exit is exempt')
